@@ -121,7 +121,9 @@ func vReach(label string) {
 	vMu.Unlock()
 }
 
-func vRunPending()             {}
+// vRunPending: the executor runs all spawned goroutines to completion here;
+// natively, give background goroutines time to finish.
+func vRunPending() { time.Sleep(150 * time.Millisecond) }
 func vSetOpt(name string, v int) {}
 func vNote(s string)           {}
 
@@ -325,4 +327,44 @@ func vEventPos(kind string, i int) int {
 		}
 	}
 	return -1
+}
+
+// vSharesStorage reports whether two lines share mutable storage: the same
+// *Line, the same Tags map, or overlapping Args backing arrays. (Intercepted by
+// the executor, which compares heap objects; this is the native equivalent.)
+func vSharesStorage(a, b *Line) bool {
+	if a == b {
+		return true
+	}
+	if a.Tags != nil && b.Tags != nil && vMapID(a.Tags) == vMapID(b.Tags) {
+		return true
+	}
+	if cap(a.Args) > 0 && cap(b.Args) > 0 {
+		a0, b0 := vSliceBase(a.Args), vSliceBase(b.Args)
+		sz := vStrSize
+		if a0 < b0+uintptr(cap(b.Args))*sz && b0 < a0+uintptr(cap(a.Args))*sz {
+			return true
+		}
+	}
+	return false
+}
+
+// Lock-discipline monitor (executor only; no-ops natively): after vWatch(root,
+// mu) every map reachable from root may be read only with mu held and written
+// only with mu write-held, and every reachable object may be stored to only
+// with mu write-held, while vWatchOn(true). Violations are logged as event
+// "unguarded". vLockAcquires counts Lock/RLock calls on mu.
+func vWatch(root interface{}, mu interface{}) {}
+func vWatchOn(on bool)                       {}
+func vLockAcquires(mu interface{}) int {
+	if c, ok := mu.(interface{ vAcquires() int }); ok {
+		return c.vAcquires()
+	}
+	panic("vLockAcquires: native replay needs the counting mutex overlay")
+}
+func vLockHeld(mu interface{}) bool {
+	if c, ok := mu.(interface{ vHeld() bool }); ok {
+		return c.vHeld()
+	}
+	panic("vLockHeld: native replay needs the counting mutex overlay")
 }
